@@ -38,7 +38,7 @@ LEVEL_TEXT = (
 
 CTYPE = {"i8": "int8_t", "u8": "uint8_t", "i16": "int16_t", "u16": "uint16_t", "i32": "int32_t", "u32": "uint32_t",
          "i64": "int64_t", "u64": "uint64_t", "f32": "float", "f64": "double", "ptr": "void *"}
-PROFILE = genir.target_profile("x86_64", ptr_bits=64, max_params=9, max_funcs=3, rotates=False)  # no back end implements rol/ror
+PROFILE = genir.target_profile("x86_64", ptr_bits=64, max_params=9, max_funcs=3, rotates=False, phi_liveout=True)  # no back end implements rol/ror
 LEVELS = ["0", "1", "2", "s"]
 FUEL = 20000
 
@@ -176,6 +176,34 @@ def cleanup():
         _TMP = None
 
 
+class _ThirdLayout(irsem.Machine):
+    """A third memory layout for irsem's address-independence test.
+
+    irsem.observe_call runs a call under two layouts and masks what differs.  Its two layouts agree in some bytes of every
+    address (bits 16..23 of a global's address are 0 in both, as are bits 32..63), so a narrow load of such a byte of a
+    stored pointer looked address independent although the byte differs in the machine that executes the code (found with
+    riscv: 'i8 load gref+2' is 0x00 in both layouts, 0x40 in the emulator's data segment).  In this layout every byte of
+    every address differs from the first two.
+    """
+
+    def _layout_globals(self):
+        hi = 0x5A3C_0000_0000 if self.ptr_bits == 64 else 0
+        self.g_next, self.g_gap, self.g_skew = hi + 0xA5C3_6900, 640, 1
+        self.s_next, self.s_gap = hi + 0x7B4D_2E00, 96
+        self.f_next, self.b_next, self.l_next = hi + 0x19E7_8300, hi + 0xC6A1_D500, hi + 0xE25F_4B00
+        super()._layout_globals()
+
+
+def observe3(m, fname, args, ptr_bits, fuel, buffers):
+    """irsem.observe_call + a third layout (see _ThirdLayout); same result shape."""
+    obs = irsem.observe_call(m, fname, args, ptr_bits=ptr_bits, fuel=fuel, buffers=buffers)
+    m3 = _ThirdLayout(m, ptr_bits, True, 1, fuel, None)
+    addrs = [m3.new_buffer(bytes(b)) for b in buffers]
+    conv = [addrs[a[1]] if isinstance(a, (tuple, list)) and len(a) == 2 and a[0] == "buf" else a for a in args]
+    third = m3.observe(m3.call(fname, conv))
+    return irsem.merge_layouts(obs, third)
+
+
 def reference(desc, calls, stats=None):
     """irsem observation per call (None = discarded)."""
     m = genir.build(desc)
@@ -185,7 +213,7 @@ def reference(desc, calls, stats=None):
         f = byname[fname]
         bufs = [bytes(range(16, 32))] * genir.nbufs(f)
         try:
-            obs = irsem.observe_call(m, fname, genir.decode_args(args), ptr_bits=desc["ptr_bits"], fuel=FUEL, buffers=bufs)
+            obs = observe3(m, fname, genir.decode_args(args), desc["ptr_bits"], FUEL, bufs)
         except irsem.Undef as e:
             if stats is not None:
                 stats.discard("irsem undefined: " + e.reason)
@@ -317,32 +345,128 @@ def replay(case):
         cleanup()
 
 
-def _kf1_witness_hash():
-    from ..core import jhash, load_findings
+# ---------------------------------------------------------------------------
+# Open findings: exclusion by construction (forbidden entries of the target's profile) + narrow classification.
+# A failure is attributed to an open finding only if (1) the module contains the triggering shape on an affected target
+# and (2) the same case HOLDS after the shape is rewritten into an equivalent IR shape that does not reach the defective
+# tree pattern (the model of the wrong output: "the difference disappears exactly when the defective pattern is avoided").
+# Exclusions lift automatically when a finding is no longer open; VERIF_C05_LIFT=id,id|all lifts them by hand (used to
+# validate fix patches through tools/withpatch.sh, where known_findings.json still lists the finding as open).
 
-    for e in load_findings(PID):
-        if e["id"] == "C05-KF1" and e.get("status") == "open":
-            return jhash(e["witness"]["module"])
-    return None
+RV = ("riscv", "riscv:rvc")
+
+
+def _rw_widen(ins, ty):
+    """ty binop computed in u32 on explicitly zero extended operands"""
+    n, a, op, b = ins[1], ins[3], ins[4], ins[5]
+    return [["cast", n + "_xa", "u32", a], ["cast", n + "_xb", "u32", b], ["binop", n + "_xr", "u32", n + "_xa", op, n + "_xb"], ["cast", n, ty, n + "_xr"]]
+
+
+def _kf1_shape(ins):
+    return ins[0] == "binop" and ((ins[2] in ("u8", "u16") and ins[4] == ">>") or (ins[2] == "u16" and ins[4] in ("/", "%")))
+
+
+def _kf2_shape(ins):
+    return ins[0] == "unop"
+
+
+def _kf2_rewrite(ins):
+    n, ty, op, a = ins[1], ins[2], ins[3], ins[4]
+    if op == "-":
+        return [["const", n + "_z", ty, 0], ["binop", n, ty, n + "_z", "-", a]]
+    ones = -1 if genir.is_signed(ty) else genir.int_range(ty)[1]
+    return [["const", n + "_m", ty, ones], ["binop", n, ty, a, "^", n + "_m"]]
+
+
+FINDINGS = {
+    # riscv: SHRU8/SHRU16/DIVU16/REMU16 work on the whole register although the upper bits of a narrow value are undefined
+    "C05-KF1": {"targets": RV, "shape": _kf1_shape, "rewrite": lambda ins: _rw_widen(ins, ins[2]),
+                "forbid": [("binop", "u8", ">>"), ("binop", "u16", ">>"), ("binop", "u16", "/"), ("binop", "u16", "%")]},
+    # riscv: NEG/INV patterns negate / invert the operand's register in place
+    "C05-KF2": {"targets": RV, "shape": _kf2_shape, "rewrite": _kf2_rewrite,
+                "forbid": [("unop", t, o) for t in ("i8", "u8", "i16", "u16", "i32", "u32") for o in ("-", "~")]},
+}
+
+
+def active_findings(target):
+    """ids of the open findings whose exclusion applies to `target`"""
+    from ..core import open_finding_ids
+
+    lift = set(x for x in os.environ.get("VERIF_C05_LIFT", "").split(",") if x)
+    if "all" in lift:
+        return []
+    return [k for k in sorted(FINDINGS) if target in FINDINGS[k]["targets"] and k in open_finding_ids(PID) and k not in lift]
+
+
+def has_shape(desc, kid):
+    shape = FINDINGS[kid]["shape"]
+    return any(shape(ins) for f in desc["functions"] for b in f["blocks"] for ins in b["ins"])
+
+
+def rewritten(desc, kids):
+    """copy of the module description with the triggering shapes of the findings `kids` rewritten"""
+    import copy
+
+    d = copy.deepcopy(desc)
+    for f in d["functions"]:
+        for b in f["blocks"]:
+            out = []
+            for ins in b["ins"]:
+                for k in kids:
+                    if FINDINGS[k]["shape"](ins):
+                        out.extend(FINDINGS[k]["rewrite"](ins))
+                        break
+                else:
+                    out.append(ins)
+            b["ins"] = out
+    return d
 
 
 def classify(case, msg):
-    """C05-KF1 is attributed only to its exact witness module on riscv:rvc."""
-    from ..core import jhash
+    import re
 
-    if case.get("target") == "riscv:rvc" and "machine code vs IR semantics" in msg:
-        h = _kf1_witness_hash()
-        if h is not None and jhash(case["module"]) == h:
-            return "C05-KF1"
+    target = case.get("target", "x86_64")
+    if "machine code vs IR semantics" not in msg:
+        return None
+    cands = [k for k in sorted(FINDINGS) if target in FINDINGS[k]["targets"] and has_shape(case["module"], k)]
+    if not cands:
+        return None
+    m = re.match(r"-O(\w) ", msg)
+    levels = [m.group(1)] if m else case.get("levels", LEVELS)
+    for kids in [[k] for k in cands] + ([cands] if len(cands) > 1 else []):
+        c2 = dict(case, module=rewritten(case["module"], kids), levels=levels)
+        try:
+            if run_case(c2)[0] is None:
+                return kids[0]
+        except Discard:
+            pass
     return None
 
 
 RV_TYPES = ["i8", "u8", "i16", "u16", "i32", "u32"]
-PROFILES = {
+_RV_KW = dict(ptr_bits=32, int_types=RV_TYPES, float_types=[], max_params=9, max_funcs=3, rotates=False, phi_liveout=True)
+BASE_PROFILES = {
     "x86_64": PROFILE,
-    "riscv": genir.target_profile("riscv", ptr_bits=32, int_types=RV_TYPES, float_types=[], max_params=9, max_funcs=3, rotates=False),
-    "riscv:rvc": genir.target_profile("riscv:rvc", ptr_bits=32, int_types=RV_TYPES, float_types=[], max_params=9, max_funcs=3, rotates=False),
+    "riscv": genir.target_profile("riscv", **_RV_KW),
+    "riscv:rvc": genir.target_profile("riscv:rvc", **_RV_KW),
 }
+PROFILES = BASE_PROFILES  # (name kept for scripts)
+_PROFILE_CACHE = {}
+
+
+def profile_for(target):
+    """the target's profile minus the shapes excluded for its open findings"""
+    kids = tuple(active_findings(target))
+    key = (target, kids)
+    if key not in _PROFILE_CACHE:
+        base = BASE_PROFILES[target]
+        if kids:
+            kw = dict(base.__dict__)
+            kw["forbidden"] = set(base.forbidden) | set(x for k in kids for x in FINDINGS[k]["forbid"])
+            _PROFILE_CACHE[key] = genir.Profile(**kw)
+        else:
+            _PROFILE_CACHE[key] = base
+    return _PROFILE_CACHE[key]
 
 
 def riscv_available():
@@ -357,7 +481,7 @@ def riscv_available():
 @st.composite
 def case_strategy(draw, targets=("x86_64",)):
     target = draw(st.sampled_from(list(targets)))
-    prof = PROFILES[target]
+    prof = profile_for(target)
     desc = draw(genir.modules(prof))
     calls = []
     for f in desc["functions"]:
@@ -371,6 +495,8 @@ def _worker(arg):
     stats = Stats()
 
     def prop(case):
+        for kid in active_findings(case["target"]):
+            stats.excluded[kid] += 1  # the case was drawn from a profile without that finding's triggering shapes
         msg, defined, ran = run_case(case, stats)
         big = genir.count_instructions(case["module"]) >= 8
         nt = ran > 0 and defined > 0 and big
@@ -379,13 +505,7 @@ def _worker(arg):
                    classes=["target:" + case["target"], "levels_ok:%d" % ran, "defined_calls:%d" % min(defined, 4)])
         return msg
 
-    from ..core import open_finding_ids
-
     targets = ("x86_64", "riscv", "riscv:rvc") if riscv_available() else ("x86_64",)
-    if "C05-KF1" in open_finding_ids(PID):
-        # open finding on riscv:rvc with an unisolated root cause: the target is not generated (its witness is replayed)
-        targets = tuple(t for t in targets if t != "riscv:rvc")
-        stats.excluded["C05-KF1"] += n // 3
     try:
         fails = hyp_search(case_strategy(targets), prop, n, seed, stats, classify=classify)
     finally:
@@ -399,8 +519,6 @@ def run(ctx):
         raise HarnessError(reason)
     n = ctx.scale(96, 9600)
     ctx.pmap(_worker, [(subseed(ctx.seed, PID, w), max(1, n // 16)) for w in range(16)])
-    from ..core import open_finding_ids
-
-    rv = ["riscv"] + ([] if "C05-KF1" in open_finding_ids(PID) else ["riscv:rvc"])
-    ctx.extra["targets_covered"] = ["x86_64"] + (rv if riscv_available() else [])
+    ctx.extra["targets_covered"] = ["x86_64"] + (["riscv", "riscv:rvc"] if riscv_available() else [])
+    ctx.extra["excluded_shapes"] = {k: sorted("%s %s %s" % x for x in FINDINGS[k]["forbid"]) for t in RV for k in active_findings(t)}
     ctx.extra["targets_not_covered"] = ["arm", "arm:thumb", "m68k", "mips (no emulator in the sandbox)"]
